@@ -1,6 +1,7 @@
 """C01 — parsing a valid JSON text yields exactly the value the text denotes."""
 import os
 import random
+import zlib
 
 from vflib import core, build
 from gen.docs import DocGen, hex4
@@ -65,8 +66,18 @@ def check_doc(sh, cid, text, value, lines, cmds, origin, beyond):
 
 
 def doc_cmds(text):
+    """default-mode, strict-mode and default-mode/strlen parses.  The orthogonal flags (ALLOW_TRAILING_CHARS 2, VALIDATE_UTF8 0x10 on valid UTF-8) are
+    switched on in three quarters of the documents (chosen by a digest of the text): they must not change what a complete valid text parses to."""
     h = text.hex()
-    return ["P 0 0 1 x" + h, "P 1 0 1 x" + h, "P 0 0 2 x" + h]
+    d = zlib.crc32(text)
+    try:
+        text.decode("utf-8")
+        u8 = True
+    except UnicodeDecodeError:
+        u8 = False
+    sf = [1, 3, 0x11, 0x13][d % 4] if u8 else [1, 3][d % 2]
+    df = [0, 2, 0x10, 0x12][(d >> 2) % 4] if u8 else [0, 2][(d >> 2) % 2]
+    return ["P %d 0 1 x%s" % (df, h), "P %d 0 1 x%s" % (sf, h), "P %d 0 2 x%s" % ([0, 2][(d >> 4) % 2], h)]
 
 
 def batch_strings(items):
